@@ -36,6 +36,7 @@ typedef struct {
     size_t *data_start[256]; size_t ndata[256];
     uint32_t spd[256];
     int levels;
+    int omission;                /* some level-0 block of the final file is omitted (index entry 0) */
     image_t *img; size_t nimg;
     char feat[200];
 } plan_t;
@@ -68,7 +69,7 @@ static void build_program(prog_t *p, rng_t *r, char *feat, size_t featn) {
         int fcls; int64_t first = gen_first_id(r, &fcls);
         d.sample_id_offset = first;
         def_normalised(&d, &nm);
-        int pat = t->bits <= 8 && rng_chance(r, 1, 2) ? PAT_BLOCKCONST : PAT_WALK;
+        int pat = t->bits <= 8 && rng_chance(r, 1, 4) ? PAT_BLOCKCONST : PAT_WALK;
         size_t before = p->n;
         int si = prog_add_signal(p, &d, "crash", "u", pat, rng_u64(r));
         p->sig[p->ops[si].def].blk = nm.samples_per_data;
@@ -82,7 +83,7 @@ static void build_program(prog_t *p, rng_t *r, char *feat, size_t featn) {
         if (n * t->bits / 8 > maxbytes) n = maxbytes * 8 / t->bits;
         if (rng_chance(r, 1, 6)) n = rng_range(r, 1, nm.samples_per_data * 2);
         span_t *sp; size_t k = gen_partition(r, rng_chance(r, 1, 2) ? PART_RANDOM : PART_BLOCKISH, first, n, nm.samples_per_data, &sp);
-        int omit = rng_chance(r, 1, 3);
+        int omit = rng_chance(r, 1, 5);
         for (size_t q = 0; q < k; ++q) {
             if (omit && rng_chance(r, 1, 6)) { op_t *o = ol_add(&lists[nl], OP_OMIT); o->id = sid; o->enable = (uint32_t) rng_below(r, 2); }
             op_t *o = ol_add(&lists[nl], OP_FSR); o->id = sid; o->sid = sp[q].sid; o->n = sp[q].n; o->vseed = rng_u64(r);
@@ -134,6 +135,15 @@ static int run_and_plan(plan_t *pl, rng_t *r, const char *path, const ctx_t *c) 
             if (!d.sig[s].present) continue;
             pl->spd[s] = d.sig[s].spd;
             for (int l = 1; l < JD_LEVELS; ++l) if (d.sig[s].summary[JD_TT_FSR][l].n && l > pl->levels) pl->levels = l;
+            {
+                const jd_list_t *il = &d.sig[s].index[JD_TT_FSR][1];
+                for (size_t q = 0; q < il->n; ++q) {
+                    const jd_chunk_t *icn = &d.ch[il->idx[q]];
+                    if (icn->plen < 16) continue;
+                    uint32_t cnt; memcpy(&cnt, icn->payload + 8, 4);
+                    for (uint32_t e = 0; e < cnt && 16 + 8 * (uint64_t) (e + 1) <= icn->plen; ++e) { uint64_t off; memcpy(&off, icn->payload + 16 + 8 * e, 8); if (!off) pl->omission = 1; }
+                }
+            }
             const jd_list_t *dl = &d.sig[s].data[JD_TT_FSR];
             pl->data_start[s] = calloc(dl->n + 1, sizeof(size_t));
             for (size_t q = 0; q < dl->n; ++q) {
@@ -195,8 +205,12 @@ static int write_file(const char *path, const uint8_t *p, size_t n) {
 
 typedef struct { plan_t *pl; const ctx_t *c; uint64_t prog; const char *path; } imgctx_t;
 
+static int g_omission;
+/* Classification used in violation keys.  Programs whose final file has omitted level-0 blocks form one
+ * class of their own: blocks omitted before their level-1 index was flushed leave no trace on disk. */
 static const char *cut_class(const image_t *im) {
     static const char *n[] = {"between-writes", "torn-append", "torn-header-update", "torn-inplace-payload"};
+    if (g_omission) return "omitted-blocks";
     return n[im->cls & 3];
 }
 
@@ -206,9 +220,13 @@ static void image_case(uint64_t ii, void *vctx) {
     plan_t *pl = ic->pl;
     const image_t *im = &pl->img[ii];
     rng_t r; rng_seed(&r, vmix(g_seed, ic->prog * 1000000ULL + ii));
+    static char chk[64];
+    snprintf(chk, sizeof(chk), "crash:image=%llu", (unsigned long long) ii);
+    g_check = chk;
     uint8_t *img; size_t n = iolog_image(im->k, im->partial, &img);
     const char *path = v_path("image.jls");
     if (write_file(path, img, n)) { free(img); return; }
+    uint64_t h_image = fnv1a(img, n, FNV_INIT);
     free(img);
     char key[200], wj[300];
     snprintf(wj, sizeof(wj), "{\"program\":%llu,\"image\":%llu,\"writes_applied\":%zu,\"partial_bytes\":%zu,\"of_writes\":%zu,\"k_def\":%zu,\"image_size\":%zu,\"levels_in_final_file\":%d}",
@@ -281,8 +299,12 @@ static void image_case(uint64_t ii, void *vctx) {
     if (h1 != h2 || sz1 != sz2) v_violation("C19", "reopen|bytes-changed", wj, "file bytes changed on reopen (%zu -> %zu)", sz1, sz2);
     dump_compare(&d1, &d2, "C19", "reopen|first-vs-second", "repairing open vs second open");
     dump_compare(&d2, &d3, "C19", "reopen|second-vs-third", "second vs third open");
-    /* C05: repaired file conforms */
-    {
+    /* C05: a file repaired on open conforms.  (An image that the reader accepted without modifying it --
+     * e.g. the END chunk is there but the final file-header write is missing -- was not repaired: the
+     * clause does not apply; counted.) */
+    int was_repaired = (h1 != h_image) || (sz1 != n);
+    if (!was_repaired) v_count("C19", "opened_without_repair", 1);
+    if (was_repaired) {
         jd_t d;
         if (!jd_load(&d, path)) {
             jd_decode(&d);
@@ -292,7 +314,8 @@ static void image_case(uint64_t ii, void *vctx) {
                 int dup = 0;
                 for (int j = 0; j < i; ++j) if (!strcmp(d.err[j].rule, d.err[i].rule)) dup = 1;
                 if (dup) continue;
-                snprintf(key, sizeof(key), "rule|%s|repaired|%s", d.err[i].rule, cut_class(im));
+                if (g_omission || im->cls == 2) snprintf(key, sizeof(key), "repaired-malformed|%s", cut_class(im));
+                else snprintf(key, sizeof(key), "rule|%s|repaired|%s", d.err[i].rule, cut_class(im));
                 v_violation("C05", key, wj, "%s", d.err[i].msg);
                 v_violation("C19", key, wj, "repaired file is not well formed: %s", d.err[i].msg);
             }
@@ -311,12 +334,15 @@ static void image_case(uint64_t ii, void *vctx) {
         v_feature("C17", 1, "unclosed|levels=%d|%s", pl->levels, pl->feat);
         if (rc) { snprintf(key, sizeof(key), "copy-error|rc=%d|unclosed", rc); v_violation("C17", key, wj, "jls_copy of an unclosed but readable file returned %d", rc); }
         else {
-            dump_t dc; dump_file(dst, &dc, ds);
+            dump_t dc, dorig;
+            dump_keep_sequences(1);
+            dump_file(dst, &dc, ds);
+            dump_file(path, &dorig, ds);       /* the reopened (repaired) original */
+            dump_keep_sequences(0);
             uint8_t skip[256]; memset(skip, 0, sizeof(skip));
             for (int s = 1; s < 256; ++s) if (pl->m.sig[s].defined && (pl->m.sig[s].omit_ever || (pl->m.sig[s].dt && pl->m.sig[s].dt->bits <= 8))) skip[s] = 1;  /* omitted blocks: known finding of closed copies */
-            dump_compare_skip_fsr(skip);
-            dump_compare(&d2, &dc, "C17", "unclosed", "reopened original vs copy of the unclosed file");
-            dump_compare_skip_fsr(NULL);
+            dump_compare_prefix(&dorig, &dc, path, dst, "C17", "unclosed", skip);
+            dump_free(&dc); dump_free(&dorig);
             jd_t d;
             if (!jd_load(&d, dst)) { jd_decode(&d); for (int i = 0; i < d.nerr && i < 3; ++i) { snprintf(key, sizeof(key), "rule|%s|copy-of-unclosed", d.err[i].rule); v_violation("C17", key, wj, "%s", d.err[i].msg); } jd_free(&d); }
         }
@@ -335,7 +361,7 @@ static void run_case(uint64_t idx, void *vctx) {
     if (run_and_plan(&pl, &r, path, c)) return;
     unlink(path);
     if (shard == 0) {
-        v_feature("C03", 1, "%s|levels=%d", pl.feat, pl.levels);
+        v_feature("C03", 1, "%s|levels=%d|omitted-blocks=%d", pl.feat, pl.levels, pl.omission);
         v_count("C03", "programs", 1);
         v_count("C03", "writes_logged", (int64_t) pl.nmut);
         v_count("C03", "crash_images_enumerated", (int64_t) pl.nimg);
@@ -346,6 +372,19 @@ static void run_case(uint64_t idx, void *vctx) {
     }
     /* images of this shard, each in its own child */
     imgctx_t ic = {.pl = &pl, .c = c, .prog = prog, .path = path};
+    g_omission = pl.omission;
+    if (getenv("VERIF_IMAGE")) {   /* debugging aid: materialise one image and its repaired form */
+        uint64_t ii = strtoull(getenv("VERIF_IMAGE"), NULL, 0);
+        if (ii < pl.nimg) {
+            uint8_t *img; size_t n = iolog_image(pl.img[ii].k, pl.img[ii].partial, &img);
+            write_file(v_path("dbg-image.jls"), img, n); write_file(v_path("dbg-repaired.jls"), img, n); free(img);
+            struct jls_rd_s *rd = NULL; int32_t rc = jls_rd_open(&rd, v_path("dbg-repaired.jls"));
+            fprintf(stderr, "image %llu k=%zu partial=%zu cls=%d size=%zu open rc=%d\n", (unsigned long long) ii, pl.img[ii].k, pl.img[ii].partial, pl.img[ii].cls, n, rc);
+            if (!rc) jls_rd_close(rd);
+        }
+        plan_free(&pl);
+        return;
+    }
     run_opts_t ro = {.cpu_s = 10, .wall_s = 60, .no_fork = 0};
     uint64_t count = (pl.nimg + NSHARD - 1 - shard) / NSHARD;
     v_count_flush();
